@@ -71,6 +71,16 @@ class Cell(Module):
 
         branches = Branch() if branches is None else branches
         parents = [-1] if parents is None else parents
+        # Levels, branch points and the voltage solvers all rely on every branch being
+        # listed after its parent (the first branch being the root).
+        for branch_ind, parent_ind in enumerate(parents):
+            is_root = branch_ind == 0 and parent_ind == -1
+            if not (is_root or 0 <= parent_ind < branch_ind):
+                raise ValueError(
+                    "`parents` must be sorted such that every branch comes after its "
+                    "parent: `parents[0] == -1` and `0 <= parents[b] < b` for all "
+                    f"other branches. Got `parents[{branch_ind}] = {parent_ind}`."
+                )
 
         if isinstance(branches, Branch):
             branch_list = [branches for _ in range(len(parents))]
